@@ -902,6 +902,8 @@ class Interp:
         raise OutOfSubset('compare op')
 
     def contains(self, container, item, fr):
+        if fr.spec and container is VNone:
+            return self.path.fresh_bool('undef')      # ill-typed sub-term guarded elsewhere in the clause
         if isinstance(container, VSeq):
             return z3.Contains(container.t, z3.Unit(self.as_int(item)))
         if isinstance(container, VStr) and isinstance(item, VStr):
@@ -929,7 +931,9 @@ class Interp:
         return self.binop(node.op, a, b, fr, node)
 
     def binop(self, op, a, b, fr, node=None):
-        if fr.spec and (a is VNone or b is VNone):
+        if fr.spec and (a is VNone or b is VNone or
+                        (isinstance(a, VStr) != isinstance(b, VStr) and not isinstance(op, ast.Mult)) or
+                        (isinstance(a, VStr) and isinstance(b, VStr) and not isinstance(op, ast.Add))):
             # ill-typed sub-term of a contract clause (guarded elsewhere in the clause): unspecified value
             return VInt(self.path.fresh_int('undef'))
         if isinstance(a, VFloat) or isinstance(b, VFloat):
